@@ -42,6 +42,7 @@ Section CacheProofs.
   Variable hash : list N -> K.
   Variable keqb : K -> K -> bool.
   Variable compile : Req -> Out.
+  Variable ok : Out -> bool.
   Variable bypass : Req -> bool.
   Variable ks aff : list comp.
 
@@ -54,9 +55,9 @@ Section CacheProofs.
 
   Notation key := (key comp Req get K hash ks).
   Notation find := (find K keqb Out).
-  Notation step := (step comp Req get K hash keqb Out compile bypass ks).
-  Notation exec := (exec comp Req get K hash keqb Out compile bypass ks).
-  Notation run := (run comp Req get K hash keqb Out compile bypass ks).
+  Notation step := (step comp Req get K hash keqb Out compile ok bypass ks).
+  Notation exec := (exec comp Req get K hash keqb Out compile ok bypass ks).
+  Notation run := (run comp Req get K hash keqb Out compile ok bypass ks).
 
   Lemma key_injective_on_components : forall r1 r2,
     key r1 = key r2 -> forall c, In c ks -> get r1 c = get r2 c.
@@ -96,6 +97,7 @@ Section CacheProofs.
         apply compile_dep. intros c Hc. symmetry.
         apply (key_injective_on_components r r' Hk c). apply Hincl. exact Hc.
       + injection Hstep as <- _ <-. split; [|reflexivity].
+        destruct (ok (compile r)); [|apply store_ok_mono; exact Hok].
         intros k o [He|Hin].
         * injection He as <- <-. exists r. split; [apply in_or_app; right; left; reflexivity | split; reflexivity].
         * apply (store_ok_mono seen r st Hok). exact Hin.
@@ -133,7 +135,9 @@ Section CacheProofs.
         - injection Es as <- _ _. apply store_ok_mono; exact Hok.
         - destruct (find (key r) st) as [o1|].
           + injection Es as <- _ _. apply store_ok_mono; exact Hok.
-          + injection Es as <- _ _. intros k o' [He|Hin].
+          + injection Es as <- _ _.
+            destruct (ok (compile r)); [|apply store_ok_mono; exact Hok].
+            intros k o' [He|Hin].
             * injection He as <- <-. exists r. split; [apply in_or_app; right; left; reflexivity | split; reflexivity].
             * apply (store_ok_mono seen r st Hok). exact Hin. }
       specialize (IH (seen ++ [r]) st1 Hok1).
@@ -209,6 +213,7 @@ Section Instantiated.
   Variable hash : list N -> K.
   Variable keqb : K -> K -> bool.
   Variable compile : Req -> Out.
+  Variable ok : Out -> bool.
   Variable bypass : Req -> bool.
   Hypothesis hash_inj : forall a b, hash a = hash b -> a = b.
   Hypothesis keqb_spec : forall a b, keqb a b = true <-> a = b.
@@ -216,22 +221,22 @@ Section Instantiated.
   Theorem cythonize_never_stale :
     (forall r1 r2, (forall c, In c (required_of required_cythonize (effective cythonize_table)) ->
                               get r1 c = get r2 c) -> compile r1 = compile r2) ->
-    forall h, map snd (run string Req get K hash keqb Out compile bypass
+    forall h, map snd (run string Req get K hash keqb Out compile ok bypass
                           (key_of (effective cythonize_table)) h) = map compile h.
   Proof.
     intros Hdep h.
-    apply (cache_hit_is_fresh string Req K Out get hash keqb compile bypass _ _ hash_inj keqb_spec Hdep).
+    apply (cache_hit_is_fresh string Req K Out get hash keqb compile ok bypass _ _ hash_inj keqb_spec Hdep).
     apply fingerprint_complete_incl. exact cythonize_complete.
   Qed.
 
   Theorem inline_never_stale :
     (forall r1 r2, (forall c, In c (required_of required_inline (effective inline_table)) ->
                               get r1 c = get r2 c) -> compile r1 = compile r2) ->
-    forall h, map snd (run string Req get K hash keqb Out compile bypass
+    forall h, map snd (run string Req get K hash keqb Out compile ok bypass
                           (key_of (effective inline_table)) h) = map compile h.
   Proof.
     intros Hdep h.
-    apply (cache_hit_is_fresh string Req K Out get hash keqb compile bypass _ _ hash_inj keqb_spec Hdep).
+    apply (cache_hit_is_fresh string Req K Out get hash keqb compile ok bypass _ _ hash_inj keqb_spec Hdep).
     apply fingerprint_complete_incl. exact inline_complete.
   Qed.
 End Instantiated.
